@@ -418,9 +418,16 @@ def o5(prog, tier="quick"):
         "method:size": lambda ev, o, a: len(o.items),
         "method:begin": lambda ev, o, a: _It(o, 0),
         "method:end": lambda ev, o, a: _It(o, len(o.items)),
+        "method:cbegin": lambda ev, o, a: _It(o, 0),
+        "method:cend": lambda ev, o, a: _It(o, len(o.items)),
+        "method:rbegin": lambda ev, o, a: _It(o, 0, True),
+        "method:rend": lambda ev, o, a: _It(o, len(o.items), True),
+        "method:crbegin": lambda ev, o, a: _It(o, 0, True),
+        "method:crend": lambda ev, o, a: _It(o, len(o.items), True),
         "method:operator*": lambda ev, o, a: o.deref() if isinstance(o, _It) else o,
         "method:operator->": lambda ev, o, a: o.deref() if isinstance(o, _It) else o,
         "method:operator++": lambda ev, o, a: (setattr(o, "pos", o.pos + 1) or o),
+        "method:operator--": lambda ev, o, a: (setattr(o, "pos", o.pos - 1) or o),
         "zw_value::get_type": lambda ev, o, a: _TypeObj(o.t),
         "zw_value::cmp": lambda ev, o, a: cmp_enum["less"] if o.r < a[0].r else (cmp_enum["greater"] if o.r > a[0].r else cmp_enum["equal"]),
         "value_type::operator<": lambda ev, o, a: o._code < a[0]._code,
@@ -452,6 +459,9 @@ def o5(prog, tier="quick"):
                 bad = bad or "%r < %r and %r < %r" % (a, b, b, a)
             if E[(id(a), id(b))] != (not ab and not ba):
                 bad = bad or "%r == %r is %s but the order says %s" % (a, b, E[(id(a), id(b))], not ab and not ba)
+            same = [(v.t, v.r) for v in a.m_values.items] == [(v.t, v.r) for v in b.m_values.items]
+            if E[(id(a), id(b))] != same:
+                bad = bad or "%r == %r is %s although the stacks %s slot by slot" % (a, b, E[(id(a), id(b))], "agree" if same else "differ")
     for a in stacks:
         for b in stacks:
             if not L[(id(a), id(b))]:
@@ -464,4 +474,77 @@ def o5(prog, tier="quick"):
         findings.append({"key": "O5:stack-order", "where": "libzwerg/stack.cc:%s" % cs["l"].split(":")[-1],
                          "msg": "the order on stacks is not a strict weak order consistent with `==`: %s (the closure's seen-set would yield a stack twice or never terminate)" % bad,
                          "detail": None})
+    return inst, findings
+
+
+class _Mpz:
+    """abstract 64-bit integer: the raw bit pattern plus the signedness tag, read through the union members"""
+    def __init__(self, value, signed):
+        self.math = value
+        self.raw = value & 0xffffffffffffffff
+        self.signed = signed
+
+    @property
+    def m_u(self):
+        return self.raw
+
+    @property
+    def m_i(self):
+        return self.raw - (1 << 64) if self.raw >> 63 else self.raw
+
+    def __repr__(self):
+        return "%d%s" % (self.math, "s" if self.signed else "u")
+
+
+def o6(prog):
+    """integer comparison agrees with mathematical order for every combination of signed/unsigned representation, on a
+    representative domain of magnitude classes (negative, zero, small, 2^63-1, 2^63, >2^63, 2^64-1)"""
+    inst, findings = [], []
+    sg = None
+    for e in prog.enums.values():
+        if e["q"] == "signedness":
+            sg = {c["n"]: ("enum", c["n"], c["v"]) for c in e["consts"]}
+    if sg is None:
+        raise Broken("enum signedness vanished")
+    ops = {}
+    for f in prog.funcs.values():
+        if f["n"] in ("operator<", "operator==", "operator<=", "operator>", "operator>=", "operator!=") and len(f["params"]) == 2 and \
+           all(p["t"] == "mpz_class" for p in f["params"]) and not f.get("cls"):
+            ops[f["n"]] = f
+    if "operator<" not in ops:
+        raise Broken("anchor operator<(mpz_class, mpz_class) vanished")
+
+    class M(_Mpz):
+        @property
+        def m_sign(self):
+            return sg["sign"] if self.signed else sg["unsign"]
+    vals = []
+    for v in (-(1 << 63), -5, -1):
+        vals.append(M(v, True))
+    for v in (0, 1, 5, (1 << 63) - 1):
+        vals.append(M(v, True))
+        vals.append(M(v, False))
+    for v in (1 << 63, (1 << 63) + 5, (1 << 64) - 1):
+        vals.append(M(v, False))
+    hooks = {}
+    for name, f in ops.items():
+        hooks[name] = (lambda ff: (lambda ev, o, a: ev.call(ff, None, a)))(f)
+    ev = Evaluator(hooks, {}, ptr_lt=True)
+    math = {"operator<": lambda x, y: x < y, "operator==": lambda x, y: x == y, "operator<=": lambda x, y: x <= y,
+            "operator>": lambda x, y: x > y, "operator>=": lambda x, y: x >= y, "operator!=": lambda x, y: x != y}
+    n = 0
+    for name, f in sorted(ops.items()):
+        bad = None
+        for a in vals:
+            for b in vals:
+                n += 1
+                got = bool(ev.call(f, None, [a, b]))
+                if got != math[name](a.math, b.math) and bad is None:
+                    bad = "%r %s %r evaluates to %s" % (a, name[8:], b, got)
+        key = "O6:mpz:" + name
+        inst.append((key, {"agrees_with_mathematical_order": bad is None}))
+        if bad:
+            findings.append({"key": key, "where": "libzwerg/int.cc:%s" % f["l"].split(":")[-1],
+                             "msg": "integer comparison disagrees with mathematical order: %s (s = held signed, u = held unsigned)" % bad, "detail": None})
+    inst.append(("O6:domain", {"representatives": len(vals), "evaluations": n}))
     return inst, findings
